@@ -679,7 +679,12 @@ fn walk_sync(data: &[u8], st: &mut MsgStats) -> Result<(), Violation> {
     let item = msg.to_enum();
     match item {
         packed::SyncMessageUnionReader::SendBlock(r) => {
-            if r.has_extra_fields() || r.block().count_extra_fields() > 1 {
+            // mirror of the guard in Synchronizer::received (incl. the extension check of fix 5d5960e)
+            let malformed_extension = r
+                .block()
+                .extra_field(0)
+                .is_some_and(|d| <packed::BytesReader as Reader>::verify(d, false).is_err());
+            if r.has_extra_fields() || r.block().count_extra_fields() > 1 || malformed_extension {
                 st.notes.push("sync:send-block-too-many-fields");
                 return Ok(());
             }
@@ -740,7 +745,12 @@ fn decode_relay(data: &[u8]) -> Option<packed::RelayMessageReader<'_>> {
     let msg = packed::RelayMessageReader::from_compatible_slice(data).ok()?;
     match msg.to_enum() {
         packed::RelayMessageUnionReader::CompactBlock(r) => {
-            if r.count_extra_fields() > 1 {
+            // mirror of the guard in Relayer::received (incl. the extension check of fix 5d5960e)
+            let malformed_extension = r
+                .to_entity()
+                .extra_field(0)
+                .is_some_and(|d| <packed::BytesReader as Reader>::verify(&d, false).is_err());
+            if r.count_extra_fields() > 1 || malformed_extension {
                 None
             } else {
                 Some(msg)
